@@ -43,7 +43,7 @@ _POOL = {}
 
 def the_pool(tier, path=None):
     if tier not in _POOL:
-        if path:
+        if path and os.path.exists(path):
             with open(path, encoding="utf-8") as fp:
                 _POOL[tier] = json.load(fp)
         else:
